@@ -374,6 +374,7 @@ type Observation struct {
 	RawShow  map[string][]byte // model id -> raw `show --json` bytes
 	RawList  []byte
 	RawEpics []byte
+	Hidden   []string // live tasks that some view leaves out: "<id>:children" (show --json <epic>), "<id>:human" (list --all)
 }
 
 func (s *Store) observe(ids *IDMap) Observation {
@@ -401,6 +402,7 @@ func (s *Store) observe(ids *IDMap) Observation {
 		o.Readable, o.Err = false, "list --epics: bad JSON"
 		return o
 	}
+	childrenOf := map[string]map[string]bool{}
 	for _, li := range append(tasks, epics...) {
 		mid := ids.model(li.ID)
 		rs := s.run(nil, nil, "--json", "show", li.ID)
@@ -415,6 +417,10 @@ func (s *Store) observe(ids *IDMap) Observation {
 		}
 		if err := json.Unmarshal(rs.Stdout, &wrap); err == nil && wrap.Epic != nil {
 			sh = *wrap.Epic
+			childrenOf[li.ID] = map[string]bool{}
+			for _, ch := range wrap.Children {
+				childrenOf[li.ID][ch.ID] = true
+			}
 		} else if err := json.Unmarshal(rs.Stdout, &sh); err != nil {
 			o.Readable, o.Err = false, "show: bad JSON"
 			return o
@@ -450,6 +456,18 @@ func (s *Store) observe(ids *IDMap) Observation {
 			o.Mismatch = append(o.Mismatch, mid+":listed-twice")
 		}
 		o.View[mid] = it
+	}
+	// every live task is visible under its epic and in the human list of everything
+	rh := s.run(nil, nil, "list", "--all")
+	for _, li := range tasks {
+		if li.EpicID != "" {
+			if ch, ok := childrenOf[li.EpicID]; ok && !ch[li.ID] {
+				o.Hidden = append(o.Hidden, ids.model(li.ID)+":children")
+			}
+		}
+		if rh.Exit != 0 || !bytes.Contains(rh.Stdout, []byte(li.ID)) {
+			o.Hidden = append(o.Hidden, ids.model(li.ID)+":human")
+		}
 	}
 	return o
 }
